@@ -2,6 +2,7 @@ package chrootsim
 
 import (
 	"bytes"
+	"encoding/json"
 	"fmt"
 	"os"
 	"path"
@@ -39,6 +40,8 @@ type LCase struct {
 	// ExtRef != "": the module imports a Swagger document (api/spec.yaml under the root)
 	// one of whose definitions is a $ref to this other file; RefInside says whether that
 	// path stays inside the root.
+	// Stdin: driver cli hands the module over on standard input instead of naming it
+	Stdin bool `json:"module_on_stdin,omitempty"`
 	// PinFile: the project has .sysl/modules.yaml
 	PinFile   bool   `json:"pin_file,omitempty"`
 	ExtRef    string `json:"external_ref,omitempty"`
@@ -648,4 +651,33 @@ func diffSnapshot(a, b map[string]string) string {
 		}
 	}
 	return ""
+}
+
+// RebaseLCase moves the project of a case to another root directory (paths below the old
+// root are re-rooted, everything else stays where it is).
+func RebaseLCase(c *LCase, newRoot string) *LCase {
+	b, _ := json.Marshal(c)
+	var n LCase
+	_ = json.Unmarshal(b, &n)
+	mv := func(p string) string {
+		if p == c.Root {
+			return newRoot
+		}
+		if strings.HasPrefix(p, c.Root+"/") {
+			return newRoot + strings.TrimPrefix(p, c.Root)
+		}
+		return p
+	}
+	n.Files, n.Faults = map[string]string{}, map[string]string{}
+	for p, v := range c.Files {
+		n.Files[mv(p)] = v
+	}
+	for p, v := range c.Faults {
+		n.Faults[mv(p)] = v
+	}
+	n.Root = newRoot
+	if !c.Explicit {
+		n.Module = mv(c.Module)
+	}
+	return &n
 }
